@@ -86,7 +86,7 @@ SEEDS = {
  "C19c": ("C19", "nund -> FUND multiplies by SetFloat64(1e-9)", "same idea as C19b"),
  "C19d": ("C19", "uint64 fast path for whole FUND amounts", "whole amount between 18446744074 and 2^64-1 FUND"),
  "C20c": ("C20", "AddressesFromStreamKey slices the sender with the receiver's length", "same idea as C18a / C20b"),
- "C20d": ("C20", "count-only fast path with status == nil || purchaser == empty", "exactly one filter set, offset paging or count_total"),
+ "C20d": ("C20", "count-only fast path taken when status or purchaser is unset (should be and)", "exactly one filter set, offset paging or count_total"),
 }
 
 
